@@ -18,6 +18,7 @@ import dns.rdataclass
 import dns.rdatatype
 import dns.rrset
 import dns.tokenizer
+import dns.tsig
 import dns.ttl
 import dns.zone
 import dns.zonefile
@@ -112,6 +113,16 @@ def build_message(rng):
             except Exception:
                 pass
     try:
+        if rng.chance(1, 4):
+            alg = rng.choice(["hmac-sha256", "hmac-sha1", "hmac-sha512-256", "hmac-md5.sig-alg.reg.int"])
+            m.use_tsig(dns.tsig.Key("key.example.", b"secret-secret-secret", alg), fudge=rng.choice([0, 300, 65535]))
+            w = bytearray(m.to_wire())
+            if rng.chance(1, 2):
+                # an algorithm name the library does not implement (same length, so the record stays well formed)
+                i = w.find(b"hmac-")
+                if i > 0:
+                    w[i + 5] = ord("x")
+            return bytes(w)
         return m.to_wire()
     except Exception:
         return dns.message.make_query("example.", "A").to_wire()
@@ -280,6 +291,13 @@ def eval_case(ctx: Ctx, c: dict):
         kw = dict(opts)
         if kw.pop("origin", False):
             kw["origin"] = dns.name.from_text("example.")
+        kr = kw.pop("keyring", None)
+        if kr == "bytes":
+            kw["keyring"] = {dns.name.from_text("key.example."): b"secret-secret-secret"}
+        elif kr == "key":
+            kw["keyring"] = dns.tsig.Key("key.example.", b"secret-secret-secret", "hmac-sha256")
+        elif kr == "callable":
+            kw["keyring"] = lambda message, name: None
         cls, m, e = guarded(lambda: dns.message.from_wire(wire, **kw))
         if report(ctx, "message.from_wire", cls, rep, f"from_wire({wire.hex()}, {opts}) raised {e!r}"):
             return
@@ -453,6 +471,8 @@ def generate(ctx: Ctx, scale: int, rng):
         opts = {k: True for k in OPTION_KEYS if rng.chance(1, 3)}
         if rng.chance(1, 4):
             opts["origin"] = True
+        if rng.chance(1, 2):
+            opts["keyring"] = rng.choice(["bytes", "bytes", "key", "callable"])
         c = {"kind": "msg", "wire": w.hex(), "opts": opts}
         ctx.case(("msg", w, str(sorted(opts))), sample=c if len(w) < 80 else None)
         eval_case(ctx, c)
@@ -507,8 +527,14 @@ def generate(ctx: Ctx, scale: int, rng):
         eval_case(ctx, c)
     # --- text
     from harness.props.C01 import gen_text_soup
+    UNI = ["\\²", "\\1²2", "\\12³", "²", "é", "\\é", "\\٣", "\\1٣", "ß", "\u3002", "\uff0e", "xn--", "\\0é0", "a\\", "\ud7ff", "\U0001f600"]
     for _ in range(n(800)):
         t = gen_text_soup(rng) if rng.chance(2, 3) else soup(rng, rng.below(4))
+        if rng.chance(1, 4):
+            k = rng.below(len(t) + 1)
+            t = t[:k] + rng.choice(UNI) + t[k:]
+            if rng.chance(1, 2):
+                t += rng.choice(UNI)
         c = {"kind": "name.text", "text": t, "origin": rng.choice(["none", "root", "ex"])}
         ctx.case(("nt", t, c["origin"]), sample=c)
         eval_case(ctx, c)
@@ -517,6 +543,8 @@ def generate(ctx: Ctx, scale: int, rng):
         t = "".join(rng.choice(["0", "1", "9", "12", "4294967295", "4294967296", "99999999999999999999"]) + rng.choice(units) for _ in range(rng.choice([0, 1, 1, 2, 3])))
         if rng.chance(1, 5):
             t = mutate_text(rng, t)
+        if rng.chance(1, 25):
+            t = rng.choice(["1", "0", "9"]) * rng.choice([4299, 4300, 4301, 5000]) + rng.choice(["", "5", "s", "w"])
         c = {"kind": "ttl", "text": t}
         ctx.case(("ttl", t), sample=c)
         eval_case(ctx, c)
